@@ -886,6 +886,16 @@ func (fr *Frame) evalCall(sc *Scope, x *ECall) Val {
 		v := fr.evalExpr(sc, x.Args[1])
 		h := fr.heap(sc.st, "R:"+id.Name, ArrSort(SInt, SBool))
 		return scalar(boolT, Select(h, fr.refOf(v)))
+	case "capturesLoopVar":
+		// capturesLoopVar(x): the function literal being spawned inside a loop captures the spawner's variable x
+		// and x is declared OUTSIDE that loop, so every iteration's goroutine shares one x with the iterations
+		// that follow (which overwrite it)
+		argn(1)
+		id, ok := x.Args[0].(*EIdent)
+		if !ok {
+			cfail("capturesLoopVar: a variable name is expected")
+		}
+		return scalar(boolT, boolTerm(fr.top.goCapStale[id.Name]))
 	case "capturesVar":
 		// capturesVar(x): the function literal being spawned (callsite go:) captures the spawner's variable x
 		// itself (by reference), so both goroutines can access it
